@@ -29,6 +29,8 @@ Oracles (clause of the statement -> oracle)
                      cosine, Pearson, Spearman, Kendall tau-b and tau-a, rho-a": every entry of compare(A, B, m) and of the
                      direct compare_* call against the per-pair definition, for stacks of different sizes with distinct
                      rows (so a transposed / mis-paired result is seen); result shape; default method is cosine.
+  C03/degenerate-row the same clause for stacks that also contain an all-zero / constant RDM: the entries of all pairs whose
+                     definition is not 0/0 are still the measure of THAT pair (placement must not depend on the other rows).
   C03/rank-exhaustive the rank measures "exact concordance counts with ties" / "expected Spearman under random
                      tie-breaking": one fixed weak order a against the stack of ALL weak orders b of the same length.
   C03/whitened       "whitened cosine/correlation ... with V derived from the pattern covariance whether that is omitted,
@@ -63,9 +65,13 @@ NOT covered by this tier
   * 'neg_riem_dist' (not named by the statement); RDMs with NaN entries (C13); sigma_k that is not SPD / not positive.
   * pairs of weak orders of 6 entries whose first member is not sorted are covered only through seeded samples (every such
     pair is a joint permutation of the ENTRIES of a pair that is enumerated; 4683^2 calls of scipy's kendalltau do not
-    fit the time budget).
+    fit the time budget); in quick mode the 6-entry domain subsamples the second weak order (strides in the domain string),
+    only thorough mode enumerates it completely. Pairs of weak orders of <= 4 entries (quick) / <= 5 entries (thorough)
+    are complete.
+  * float32 inputs (results are float32 for some measures; the statement does not fix a precision).
 
-Known findings on the unchanged tree (own input_class each, see C03_findings.md):  sigma_k-vector, int-dtype.
+Known findings on the unchanged tree (own input_class each, see C03_findings.md):
+  sigma_k-vector (whitened / sigma-forms), degenerate-row-in-stack (degenerate-row), int-dtype,cosine (input-forms).
 """
 import functools
 import itertools
@@ -520,14 +526,8 @@ def _weak_orders(n):
 
 @functools.lru_cache(maxsize=None)
 def _all_breakings(n):
-    """tie-breakings of every weak order of n entries stacked, with segment starts"""
-    blocks, starts, pos = [], [], 0
-    for w in _weak_orders(n):
-        tb = _tie_breakings(w)
-        blocks.append(tb)
-        starts.append(pos)
-        pos += len(tb)
-    return np.vstack(blocks), np.array(starts), np.array([len(t) for t in blocks])
+    """the tie-breakings (K x n rank arrays) of every weak order of n entries, in the order of _weak_orders(n)"""
+    return tuple(_tie_breakings(w) for w in _weak_orders(n))
 
 
 def _values(ranks):
@@ -579,12 +579,15 @@ def orc_rank_exhaustive(case):
         ok = den > 0
         want[0, ok] = (bc @ ac)[ok] / np.sqrt(den[ok])
     elif m == 'rho-a':
-        allb, starts, lens = _all_breakings(n)
-        pr = _pearson_rows(_tie_breakings(a_r.tolist()), allb)     # every tie-breaking of a x every tie-breaking of every b
-        colsum = pr.sum(0)
-        seg = np.add.reduceat(colsum, starts)
-        mean_all = seg / (lens * pr.shape[0])
-        want[0] = mean_all[sel]
+        blocks = [_all_breakings(n)[k] for k in sel]
+        lens = np.array([len(t) for t in blocks])
+        starts = np.concatenate(([0], np.cumsum(lens)[:-1]))
+        allb = np.vstack(blocks)
+        ta = _tie_breakings(a_r.tolist())
+        colsum = np.zeros(len(allb))
+        for c0 in range(0, len(ta), 48):       # every tie-breaking of a x every tie-breaking of every b (in chunks of rows)
+            colsum += _pearson_rows(ta[c0:c0 + 48], allb).sum(0)
+        want[0] = np.add.reduceat(colsum, starts) / (lens * len(ta))
     else:
         raise ValueError(m)
     got = _call(m, a, b)
@@ -898,7 +901,7 @@ def tier_c(run, thorough):
     bds.append(bd)
 
     # strides over the stack of all b (1 = every weak order) per method: quick subsamples, thorough is complete
-    strides = {'tau-a': 1, 'spearman': 1, 'rho-a': 1, 'kendall': 1} if thorough else {'tau-a': 2, 'spearman': 3, 'rho-a': 3, 'kendall': 8}
+    strides = {'tau-a': 1, 'spearman': 1, 'rho-a': 1, 'kendall': 1} if thorough else {'tau-a': 4, 'spearman': 4, 'rho-a': 4, 'kendall': 16}
     bd = Bounded(run, 'C03/rank-exhaustive[6 entries]', 'C03/compare/oracle/rank-measures-all-weak-orders',
                  'RDMs of 4 conditions (6 entries): a over the 32 non-decreasing weak orders x b over %s of the 4683 weak orders '
                  '(every pair of weak orders is a joint permutation of the entries of exactly one pair with sorted a); methods and '
@@ -913,7 +916,7 @@ def tier_c(run, thorough):
     bds.append(bd)
 
     n_a = 120 if thorough else 6
-    ustr = {'tau-a': 1, 'spearman': 1, 'rho-a': 1, 'kendall': 4} if thorough else {'tau-a': 2, 'spearman': 3, 'rho-a': 3, 'kendall': 12}
+    ustr = {'tau-a': 1, 'spearman': 1, 'rho-a': 1, 'kendall': 4} if thorough else {'tau-a': 4, 'spearman': 4, 'rho-a': 4, 'kendall': 16}
     bd = Bounded(run, 'C03/rank-exhaustive[6 entries, unsorted a]', 'C03/compare/oracle/rank-measures-all-weak-orders',
                  'RDMs of 4 conditions: %d seeded (unsorted) weak orders a x the 4683 weak orders b with b-strides %s' % (n_a, ustr),
                  function='compare')
